@@ -90,6 +90,11 @@ func (wrapper EpochsHooksWrapper) AfterEpochEnd(
 				// Handle the error gracefully, continue to the next
 				// continue
 			}
+			if err != nil {
+				// the value returned together with the error wraps a nil pointer and must not be used
+				// (this hook runs in BeginBlock, where a panic halts the chain): record a total of zero.
+				taskPowerTotal = sdkmath.LegacyNewDec(0)
+			}
 			taskInfo.TaskTotalPower = taskPowerTotal
 
 			if !taskPowerTotal.IsZero() && !operatorPowerTotal.IsZero() {
